@@ -167,6 +167,14 @@ def gen_T08():
     src_ap = ast.unparse(find_def(d, '_applyStsPolicy', 'ServersMixin'))
     need("if lastDisconnect is not None and lastDisconnect + policy['duration'] < time.time():" in src_ap
          and "return Server(server.hostname, policy['port'], server.attempt, force_tls_verification=True)" in src_ap, '_applyStsPolicy changed')
+    # the nick generator (C08 liveness): alternates first, then random variants that are neither tried nor the current nick
+    gnn = find_def(t, '_getNextNick', 'Irc')
+    loops = [ast.unparse(n.test) for n in ast.walk(gnn) if isinstance(n, ast.While)]
+    need(loops == ['len(L) <= 3', 'ret in self.triedNicks or ret == self.nick'], '_getNextNick: fallback loop changed: %r' % loops)
+    need(ast.unparse(gnn.body[0]).startswith('if self.alternateNicks:\n    nick = self.alternateNicks.pop(0)'), '_getNextNick: alternates branch changed')
+    src_43 = ast.unparse(find_def(t, 'do43x', 'Irc'))
+    need(src_43.startswith("def do43x(self, msg, problem):\n    if not self.afterConnect:\n        newNick = self._getNextNick()\n        assert newNick != self.nick")
+         and 'self.sendMsg(ircmsgs.nick(newNick))' in src_43, 'do43x changed')
     has_filter = any(isinstance(n, ast.FunctionDef) and n.name == 'filterSaslMechanisms' for n in irc.body)
     order = ['on_init_messages_sent', 'on_sasl_cap', 'on_sasl_auth_finished', 'on_cap_end', 'on_start_motd', 'on_end_motd', 'on_shutdown']
     out = '(* FSM states: ' + ', '.join('%s=%d' % kv for kv in sorted(states.items(), key=lambda kv: kv[1])) + ' *)\n'
